@@ -343,3 +343,39 @@ def handover(rep, prog, rule="HANDOVER"):
         else:
             rep.violation(rule, key, "the transition computed from the POSIX rule is returned without comparing it with the last recorded "
                           "transition: a rule whose previous transition falls before it skips recorded transitions", loc)
+
+
+def floor_print(rep, prog, rule="FLOOR-PRINT"):
+    """%s is the number of whole seconds since the epoch in the C library's sense: the floor"""
+    rep.rule(rule, "a strtime formatter that prints the whole-second view of a Timestamp obtained by truncation (as_second) branches on "
+                   "the sign of the sub-second part: the other directives of the same call (%S, %f, %.f) come from the civil "
+                   "decomposition, which floors, so for a pre-1970 instant with a fraction the truncated second belongs to a "
+                   "different second than the one the rest of the text describes (and the parser reads %s as a floor)")
+    n = 0
+    for f in prog.fns.values():
+        if f.crate != "jiff" or f.is_closure or not f.file.startswith("src/fmt/strtime"):
+            continue
+        trunc = [t for _, t in mir.iter_calls(f) if t.get("path") in ("timestamp::Timestamp::as_second", "timestamp::Timestamp::as_second_ranged")]
+        writes = [t for _, t in mir.iter_calls(f) if t.get("path", "").endswith("::write_int")]
+        if not trunc or not writes:
+            continue
+        n += 1
+        T = Terms(f)
+        ok = False
+        for b in f.blocks:
+            t = b["term"]
+            if t["t"] != "switch":
+                continue
+            for x in walk(T.operand(t["op"])):
+                if isinstance(x, tuple) and x and x[0] == "bin" and x[1] in ("Lt", "Le", "Gt", "Ge"):
+                    sides = (x[2], x[3])
+                    if any(any(is_call(y, "Timestamp::subsec_nanosecond") or is_call(y, "Timestamp::subsec_nanosecond_ranged") for y in walk(s_)) for s_ in sides) \
+                            and any(s_ == ("const", 0) for s_ in sides):
+                        ok = True
+        key = f.path.split("::")[-1]
+        if ok:
+            rep.ok(rule, key, how="sign of subsec_nanosecond() is consulted", loc=f.loc())
+        else:
+            rep.violation(rule, key, "%s prints Timestamp::as_second() (truncation toward zero) without testing the sign of the sub-second "
+                          "part: -1.5s prints as -1 where the C library and this crate's own parser mean floor (-2)" % f.path, f.loc())
+    rep.floor(rule + " functions", n, 1)
